@@ -265,6 +265,31 @@ fn check_type<T: Jetty>(tname: &str, ctx: &Ctx, shard: usize, nshards: usize, ti
                 continue;
             }
         };
+        // a rendering into a writer that gives up half-way must not leave anything behind that
+        // shows up in the next rendering (on this thread or elsewhere)
+        if ci % 3 == 0 && text.len() > 2 {
+            struct Bounded(usize);
+            impl std::fmt::Write for Bounded {
+                fn write_str(&mut self, s: &str) -> std::fmt::Result {
+                    if s.len() > self.0 {
+                        self.0 = 0;
+                        Err(std::fmt::Error)
+                    } else {
+                        self.0 -= s.len();
+                        Ok(())
+                    }
+                }
+            }
+            use std::fmt::Write as _;
+            let cut = 1 + rng.below(text.len() - 1);
+            let mut w = Bounded(cut);
+            let failed = write!(w, "{}", x).is_err();
+            acc.observe(&format!("after-failed-write|{}", tname), true);
+            let again = x.to_string();
+            if again != text {
+                acc.violate(format!("after-failed-write:{}", tname), format!("rendering {} again after a write that failed after {} bytes (failed: {}) gives {:?} instead of {:?}", tname, cut, failed, again, text), case());
+            }
+        }
         let via_format = format!("{}", x);
         if via_format != text {
             acc.violate(format!("format-vs-to_string:{}", tname), format!("format!(\"{{}}\") and to_string differ on {}", tname), case());
